@@ -158,7 +158,8 @@ Definition keys_ok (st : smap cert) : Prop := forall k o, lookup k st = Some o -
 (* Certificates controlled by uid are named after their secret (true of everything the controller creates) *)
 Definition consistent_for (uid : string) (st : smap cert) : Prop :=
   forall k o, lookup k st = Some o -> controlled_by (c_owner o) uid = true -> c_secret (c_spec o) = c_name o.
-Definition good (st : smap cert) : Prop := wf st /\ keys_ok st /\ forall uid, consistent_for uid st.
+(* nothing is asked of objects that uid does not control *)
+Definition good_for (uid : string) (st : smap cert) : Prop := wf st /\ keys_ok st /\ consistent_for uid st.
 
 Definition perm_fun (ord : list string -> list string) : Prop := forall l, Permutation (ord l) l.
 
@@ -265,12 +266,12 @@ Proof.
     rewrite (delete_all_frame _ _ _ _ _ _ n D Hr). apply lookup_remove_eq. assumption.
 Qed.
 
-Lemma delete_all_invariants names fs st st' lg r :
-  good st -> delete_all names fs st = (st', lg, r) -> good st'.
+Lemma delete_all_invariants u names fs st st' lg r :
+  good_for u st -> delete_all names fs st = (st', lg, r) -> good_for u st'.
 Proof.
   intros [W [K C]] H. split; [eapply delete_all_wf; eassumption|]. split.
   - intros k o L. apply K. eapply delete_all_mono; eassumption.
-  - intros uid k o L. apply (C uid k). eapply delete_all_mono; eassumption.
+  - intros k o L. apply (C k). eapply delete_all_mono; eassumption.
 Qed.
 
 (* ------------------------------------------------------------------ one Certificate synchronization *)
@@ -416,8 +417,8 @@ Proof.
 Qed.
 
 (* the invariants survive every synchronization *)
-Lemma cert_step_good cs ord v fs st st' lg r :
-  good st -> sync_cert cs ord v fs st = (st', lg, r) -> good st'.
+Lemma cert_step_good u cs ord v fs st st' lg r :
+  good_for u st -> sync_cert cs ord v fs st = (st', lg, r) -> good_for u st'.
 Proof.
   intros G H. destruct (feature_cases v) as [Off|[t [cm [E1 E2]]]].
   - rewrite sync_cert_off in H by assumption. inversion H; subst. assumption.
@@ -425,10 +426,10 @@ Proof.
     destruct (desired_cert v t cm) as [crt|] eqn:Dc; [|inversion H; subst; assumption].
     cbn zeta in H. apply desired_cert_shape in Dc. destruct Dc as [Dn [Do Ds]].
     pose proof (build_certificates_spec cs (v_uid v) (t_secret t) crt st) as B.
-    assert (Gi : forall c, c_name c = t_secret t -> c_secret (c_spec c) = c_name c -> good (insert (t_secret t) c st)).
+    assert (Gi : forall c, c_name c = t_secret t -> c_secret (c_spec c) = c_name c -> good_for u (insert (t_secret t) c st)).
     { intros c En Es. destruct G as [W [K C]]. split; [apply wf_insert; assumption|]. split.
       - apply keys_ok_insert; assumption.
-      - intros uid. apply consistent_insert; [apply C|assumption]. }
+      - apply consistent_insert; [exact C|assumption]. }
     destruct (build_certificates cs (v_uid v) (t_secret t) crt st) as [|c|c].
     + eapply delete_all_invariants; eassumption.
     + destruct B as [Ls ->]. apply write_then_gc_inv in H.
@@ -444,7 +445,7 @@ Qed.
 (* ------------------------------------------------------------------ after a successful synchronization *)
 
 Lemma gc_phase_result st uid secret ord fs0 stmid st1 lg0 :
-  good st -> perm_fun ord -> wf stmid ->
+  good_for uid st -> perm_fun ord -> wf stmid ->
   (forall k o, lookup k stmid = Some o -> k = secret \/ lookup k st = Some o) ->
   delete_all (ord (certs_to_remove uid secret st)) fs0 stmid = (st1, lg0, ROk) ->
   forall k o, lookup k st1 = Some o -> controlled_by (c_owner o) uid = true -> k = secret.
@@ -453,7 +454,7 @@ Proof.
   pose proof (delete_all_mono _ _ _ _ _ _ _ _ Wm D L) as Lm.
   destruct (Hm _ _ Lm) as [->|Ls]; [reflexivity|].
   destruct (string_dec (c_secret (c_spec o)) secret) as [E|N].
-  - rewrite <- E. rewrite (C uid k o Ls Co). symmetry. apply K. assumption.
+  - rewrite <- E. rewrite (C k o Ls Co). symmetry. apply K. assumption.
   - exfalso. assert (Hin : In k (ord (certs_to_remove uid secret st))).
     { eapply Permutation_in; [apply Permutation_sym; apply P|].
       apply in_certs_to_remove; [assumption|assumption|]. exists o. auto. }
@@ -461,7 +462,7 @@ Proof.
 Qed.
 
 Lemma secret_not_collected st uid secret ord :
-  good st -> sub_fun ord ->
+  good_for uid st -> sub_fun ord ->
   (forall e, lookup secret st = Some e -> controlled_by (c_owner e) uid = true -> c_secret (c_spec e) = secret) ->
   ~ In secret (ord (certs_to_remove uid secret st)).
 Proof.
@@ -470,12 +471,12 @@ Proof.
 Qed.
 
 Lemma good_secret_consistent st uid secret :
-  good st -> forall e, lookup secret st = Some e -> controlled_by (c_owner e) uid = true -> c_secret (c_spec e) = secret.
-Proof. intros [W [K C]] e L Co. rewrite (C uid _ _ L Co). apply K. assumption. Qed.
+  good_for uid st -> forall e, lookup secret st = Some e -> controlled_by (c_owner e) uid = true -> c_secret (c_spec e) = secret.
+Proof. intros [W [K C]] e L Co. rewrite (C _ _ L Co). apply K. assumption. Qed.
 
 (* objects controlled by the VirtualServer under any other name than its secret are gone *)
 Lemma cert_step_gc cs ord v fs st st1 lg t cm :
-  good st -> perm_fun ord -> v_tls v = Some t -> t_cm t = Some cm ->
+  good_for (v_uid v) st -> perm_fun ord -> v_tls v = Some t -> t_cm t = Some cm ->
   sync_cert cs ord v fs st = (st1, lg, ROk) ->
   forall k o, lookup k st1 = Some o -> controlled_by (c_owner o) (v_uid v) = true -> k = t_secret t.
 Proof.
@@ -499,7 +500,7 @@ Proof. intros E. unfold tracks, cert_updated. cbn. repeat split; auto. Qed.
 
 (* what is stored under the secret name afterwards *)
 Lemma cert_step_fresh cs ord v fs st st1 lg t cm :
-  good st -> perm_fun ord -> v_tls v = Some t -> t_cm t = Some cm ->
+  good_for (v_uid v) st -> perm_fun ord -> v_tls v = Some t -> t_cm t = Some cm ->
   sync_cert cs ord v fs st = (st1, lg, ROk) ->
   exists crt, desired_cert v t cm = Some crt /\
     match lookup (t_secret t) st with
@@ -546,12 +547,12 @@ Proof. destruct l as [|x l]; [reflexivity|]. intros H. exfalso. apply (H x). cbn
 
 (* a second synchronization of the same VirtualServer writes nothing *)
 Lemma cert_step_idempotent cs ord ord' v fs fs' st st1 lg :
-  good st -> perm_fun ord -> perm_fun ord' ->
+  good_for (v_uid v) st -> perm_fun ord -> perm_fun ord' ->
   sync_cert cs ord v fs st = (st1, lg, ROk) -> sync_cert cs ord' v fs' st1 = (st1, [], ROk).
 Proof.
   intros G P P' H. destruct (feature_cases v) as [Off|[t [cm [E1 E2]]]].
   - apply sync_cert_off. assumption.
-  - pose proof (cert_step_good _ _ _ _ _ _ _ _ G H) as G1.
+  - pose proof (cert_step_good _ _ _ _ _ _ _ _ _ G H) as G1.
     pose proof (cert_step_gc _ _ _ _ _ _ _ _ _ G P E1 E2 H) as Hgc.
     destruct (cert_step_fresh _ _ _ _ _ _ _ _ _ G P E1 E2 H) as [crt [Dc Hf]].
     rewrite (sync_cert_on _ _ _ _ _ _ _ E1 E2), Dc. cbn zeta.
@@ -766,7 +767,7 @@ Definition ords_ok (h : list event) : Prop := forall e, In e h -> perm_fun (ev_o
 
 Definition wk (st : smap cert) : Prop := wf st /\ keys_ok st.
 
-Lemma good_wk st : good st -> wk st.
+Lemma good_wk u st : good_for u st -> wk st.
 Proof. intros [W [K _]]. split; assumption. Qed.
 
 Lemma delete_all_wk names fs st st' lg r : wk st -> delete_all names fs st = (st', lg, r) -> wk st'.
@@ -806,7 +807,7 @@ Lemma step_dns_eq st e :
   (step_dns st e, snd (fst (sync_dns (ev_vs e) (ev_dfaults e) st)), snd (sync_dns (ev_vs e) (ev_dfaults e) st)).
 Proof. unfold step_dns. destruct (sync_dns (ev_vs e) (ev_dfaults e) st) as [[a b] c]. reflexivity. Qed.
 
-Lemma run_cert_good cs h : forall st, good st -> good (run_cert cs h st).
+Lemma run_cert_good u cs h : forall st, good_for u st -> good_for u (run_cert cs h st).
 Proof.
   induction h as [|e h IH]; intros st G; [exact G|]. cbn. apply IH.
   eapply cert_step_good; [exact G|apply step_cert_eq].
@@ -881,13 +882,13 @@ Proof.
   destruct (dns_history_foreign h sd) as [T2 U2]. auto.
 Qed.
 
-Theorem idempotent_cert : forall cs (h : list event) (s0 : smap cert),
-  good s0 ->
-  forall v ord ord' fs fs' st1 lg, perm_fun ord -> perm_fun ord' ->
+Theorem idempotent_cert : forall cs (h : list event) (s0 : smap cert) v,
+  good_for (v_uid v) s0 ->
+  forall ord ord' fs fs' st1 lg, perm_fun ord -> perm_fun ord' ->
     sync_cert cs ord v fs (run_cert cs h s0) = (st1, lg, ROk) ->
     sync_cert cs ord' v fs' st1 = (st1, [], ROk).
 Proof.
-  intros cs h s0 G v ord ord' fs fs' st1 lg P P' H.
+  intros cs h s0 v G ord ord' fs fs' st1 lg P P' H.
   eapply cert_step_idempotent; [apply run_cert_good; exact G|exact P|exact P'|exact H].
 Qed.
 
@@ -904,9 +905,9 @@ Proof.
   destruct (c_spec o), (c_spec crt). cbn in *. congruence.
 Qed.
 
-Theorem fresh_cert_partial : forall cs (h : list event) (s0 : smap cert),
-  good s0 ->
-  forall v ord fs st1 lg t cm, perm_fun ord ->
+Theorem fresh_cert_partial : forall cs (h : list event) (s0 : smap cert) v,
+  good_for (v_uid v) s0 ->
+  forall ord fs st1 lg t cm, perm_fun ord ->
     v_tls v = Some t -> t_cm t = Some cm ->
     sync_cert cs ord v fs (run_cert cs h s0) = (st1, lg, ROk) ->
     exists crt, wanted_cert v = Some crt /\
@@ -921,8 +922,8 @@ Theorem fresh_cert_partial : forall cs (h : list event) (s0 : smap cert),
           else lookup (t_secret t) st1 = Some e
       end.
 Proof.
-  intros cs h s0 G v ord fs st1 lg t cm P E1 E2 H.
-  destruct (cert_step_fresh cs ord v fs _ st1 lg t cm (run_cert_good cs h s0 G) P E1 E2 H) as [crt [Dc Hf]].
+  intros cs h s0 v G ord fs st1 lg t cm P E1 E2 H.
+  destruct (cert_step_fresh cs ord v fs _ st1 lg t cm (run_cert_good _ cs h s0 G) P E1 E2 H) as [crt [Dc Hf]].
   exists crt. split; [|exact Hf]. unfold wanted_cert. rewrite E1, E2. exact Dc.
 Qed.
 
@@ -938,17 +939,17 @@ Proof.
   exact (dns_step_fresh v fs (run_dns h s0) st1 lg (run_dns_good h s0 G) H En Hm).
 Qed.
 
-Theorem gc_cert_partial : forall cs (h : list event) (s0 : smap cert),
-  good s0 ->
-  forall v ord fs st1 lg, perm_fun ord -> cert_feature_on v = true ->
+Theorem gc_cert_partial : forall cs (h : list event) (s0 : smap cert) v,
+  good_for (v_uid v) s0 ->
+  forall ord fs st1 lg, perm_fun ord -> cert_feature_on v = true ->
     sync_cert cs ord v fs (run_cert cs h s0) = (st1, lg, ROk) ->
     forall k o, lookup k st1 = Some o -> controlled_by (c_owner o) (v_uid v) = true ->
                 exists t, v_tls v = Some t /\ k = t_secret t.
 Proof.
-  intros cs h s0 G v ord fs st1 lg P On H k o L C.
+  intros cs h s0 v G ord fs st1 lg P On H k o L C.
   destruct (feature_cases v) as [Off|[t [cm [E1 E2]]]]; [congruence|].
   exists t. split; [assumption|].
-  eapply (cert_step_gc cs ord v fs _ st1 lg t cm (run_cert_good cs h s0 G) P E1 E2 H); eassumption.
+  eapply (cert_step_gc cs ord v fs _ st1 lg t cm (run_cert_good _ cs h s0 G) P E1 E2 H); eassumption.
 Qed.
 
 Theorem gc_dns_partial : forall v fs st st' lg r,
